@@ -12,6 +12,11 @@ EXTENDS Krill, Sequences, Json
 CONSTANTS Depth, MaxApiStreak, MaxDestr,
           MftDue, ObjDue   \* the timing regime of the generated runs
 
+\* In the roll theme an activation that has become possible is the next API
+\* operation (a uniform random walk seldom gets that far otherwise).
+RollFirst == "roll" \in Ops
+RollReady == \E c \in Sub : exists[c] /\ rc[c] = "roll_new" /\ CanActivate(c)
+
 VARIABLES hist, streak, settling, dirty, destr
 
 gvars == <<vars, hist, streak, settling, dirty, destr>>
@@ -39,7 +44,7 @@ Api(rec) == /\ ~settling /\ streak < MaxApiStreak
             /\ destr' = IF rec.a \in {"ChildRemove", "DeleteCa"} THEN destr + 1 ELSE destr
             /\ (rec.a \in {"ChildRemove", "DeleteCa"} => destr < MaxDestr)
 
-GenApi ==
+GenApiAny ==
     \/ \E c \in Sub, R \in SUBSET Res :
          AddCa(c, ParentOf[c], R)
          /\ Api([a |-> "AddCa", c |-> c, p |-> ParentOf[c], res |-> SetToSeq(R)])
@@ -54,6 +59,12 @@ GenApi ==
     \/ "roa" \in Ops /\ \E c \in AllCA, r \in Roa :
          \/ RoaAdd(c, r) /\ Api([a |-> "RoaAdd", c |-> c, r |-> <<r[1], r[2]>>])
          \/ RoaDel(c, r) /\ Api([a |-> "RoaDel", c |-> c, r |-> <<r[1], r[2]>>])
+    \/ "roadelta" \in Ops /\ \E c \in AllCA, A \in SUBSET Roa, D \in SUBSET Roa :
+         /\ Cardinality(A) + Cardinality(D) >= 2
+         /\ RoaDelta(c, A, D)
+         /\ Api([a |-> "RoaDelta", c |-> c,
+                 add |-> SetToSeq({r[1] \o "|" \o r[2] : r \in A}),
+                 del |-> SetToSeq({r[1] \o "|" \o r[2] : r \in D})])
     \/ "roll" \in Ops /\ \E c \in Sub :
          \/ RollInit(c) /\ Api([a |-> "RollInit", c |-> c])
          \/ RollActivate(c) /\ Api([a |-> "RollActivate", c |-> c])
@@ -65,6 +76,11 @@ GenApi ==
          \/ \E c \in Sub : PubAdd(c) /\ Api([a |-> "PubAdd", c |-> c])
          \/ RepoSyncAll /\ Api([a |-> "RepoSyncAll"])
     \/ "restart" \in Ops /\ UNCHANGED vars /\ Api([a |-> "Restart"])
+
+GenApi ==
+    IF RollFirst /\ RollReady
+    THEN \E c \in Sub : RollActivate(c) /\ Api([a |-> "RollActivate", c |-> c])
+    ELSE GenApiAny
 
 \* one background task, named
 GenStep ==
